@@ -32,6 +32,8 @@ class UB:
         self._param = {}
         self._local = {}
         self._stack = set()
+        self._grow = 0            # > 0 while the operands of a growing operation (+, *, <<) are evaluated
+        self._selfgrow = set()    # fields stored from a growing operation on their own value: accumulators, unbounded
         self._callers = None
         self._field_sites = None
         self.trace = {}
@@ -306,8 +308,13 @@ class UB:
         if key in self._field:
             return self._field[key]
         if ("F",) + key in self._stack:
-            return 0   # self-reference inside a max(): least fixed point
+            # self-reference inside a max() or a copy: least fixed point.  Inside `f = f + x` (a counter stepped per call, per
+            # token ...) there is no fixed point below the type's maximum: the field is an accumulator (seed10-c10a)
+            if self._grow > 0:
+                self._selfgrow.add(key)
+            return 0
         self._stack.add(("F",) + key)
+        grow0, self._grow = self._grow, 0     # growth is counted between this field's stores and a read of itself only
         best = 0
         sites = list(self.field_sites().get(key, [])) + list(self.field_sites().get(("?", fname), []))
         why = []
@@ -327,6 +334,10 @@ class UB:
                 best = v
             why.append((v, b.name.replace("preflate_rs::", ""), b.where(bb)))
         self._stack.discard(("F",) + key)
+        self._grow = grow0
+        if key in self._selfgrow:
+            best = INF
+            why.append((INF, "accumulator: stored from +, * or << on its own value", ""))
         # cap by declared type
         a = self.F.adts.get(adt or "")
         if a:
@@ -376,8 +387,13 @@ class UB:
             return tymax(r["ty"])
         if k == "binop":
             op = r["op"].replace("WithOverflow", "").replace("Unchecked", "")
-            a = self.operand(b, r["l"], bb)
-            c = self.operand(b, r["r"], bb)
+            grows = op in ("Add", "Mul", "Shl")
+            self._grow += grows
+            try:
+                a = self.operand(b, r["l"], bb)
+                c = self.operand(b, r["r"], bb)
+            finally:
+                self._grow -= grows
             if op == "Add":
                 return a + c
             if op == "Sub":
